@@ -681,6 +681,40 @@ run_direct(IMB_MGR *mgr)
                 while (IMB_FLUSH_BURST(mgr, 8, arr) != 0)
                         ;
         }
+        {
+                /* not enough room: one parked job (a lone CBC encryption stays in its scheduler) keeps 200 finished
+                 * jobs behind it in the ring; a legal burst size larger than the room left must be refused with
+                 * IMB_ERR_QUEUE_SPACE (and nothing else) */
+                uint32_t got = IMB_GET_NEXT_BURST(mgr, 1, arr);
+
+                if (got == 1) {
+                        fill_cbc(arr[0], ek, dk, buf, iv);
+                        arr[0]->cipher_direction = IMB_DIR_ENCRYPT;
+                        (void) imb_set_session(mgr, arr[0]);
+                        OK("SUBMIT_BURST(parked head)", (void) IMB_SUBMIT_BURST(mgr, 1, arr));
+                        for (int rep = 0; rep < 2; rep++) {
+                                got = IMB_GET_NEXT_BURST(mgr, 100, arr);
+                                for (uint32_t k = 0; k < got; k++) {
+                                        fill_cbc(arr[k], ek, dk, buf, iv);
+                                        (void) imb_set_session(mgr, arr[k]);
+                                }
+                                OK("SUBMIT_BURST(100 behind a parked job)", (void) IMB_SUBMIT_BURST(mgr, got, arr));
+                        }
+                        got = IMB_GET_NEXT_BURST(mgr, 64, arr);
+                        for (uint32_t k = 0; k < got; k++) {
+                                fill_cbc(arr[k], ek, dk, buf, iv);
+                                (void) imb_set_session(mgr, arr[k]);
+                        }
+                        if (got < 64) {
+                                for (uint32_t k = got; k < 64; k++)
+                                        arr[k] = arr[0];
+                                FAIL("SUBMIT_BURST(no-room)", IMB_ERR_QUEUE_SPACE, (void) IMB_SUBMIT_BURST(mgr, 64, arr));
+                                OK("QUEUE_SIZE(after no-room)", (void) IMB_QUEUE_SIZE(mgr));
+                        }
+                        while (IMB_FLUSH_BURST(mgr, IMB_MAX_BURST_SIZE, arr) != 0)
+                                ;
+                }
+        }
         FAIL("imb_set_session(job=NULL)", IMB_ERR_NULL_JOB, (void) imb_set_session(mgr, NULL));
         {
                 IMB_JOB t;
